@@ -7,6 +7,7 @@ from ..predabs import Vocab, PredAbs, A, Not, And, Or, T, F
 from ..rules import common
 
 TITLE = "Timers never fire early, twice, or after a successful cancel"
+TECHNIQUE = 'custom static analysis over clang-14 CFG facts: must-lockset, same-critical-section rule, predicate abstraction over timer state with ghost atoms, deadline dataflow on reschedule'
 TS, TW = "iora::core::TimerService", "iora::core::TimingWheel"
 TSF, TWF = "iora/core/timer.hpp", "iora/core/timing_wheel.hpp"
 TSM, TWM, TWP = TS + "::_mutex", TW + "::_wheelMutex", TW + "::_poolMutex"
